@@ -49,13 +49,18 @@ let check_kind (prop : string) (b : block) : verdict list =
   | Some msg -> [Viol ("load:panic", "loading panicked: " ^ String.concat " " msg)]
   | None ->
     let n = Chk_c01.int_n b in
-    let nn = Conv.nat_of_int n in
-    let c = b.circuit in
+    let big = List.length b.circuit > 1200 || find b "bigcircuit" <> None in
+    (* corpus-size circuits: the list-based extracted model is quadratic; only the model-free
+       oracles (metamorphic laws, closed forms) are judged there (STAT big_circuits_laws_only) *)
+    let nn = Conv.nat_of_int (if big then 0 else n) in
+    let c = if big then [Model.TrueN] else b.circuit in
     let d = Model.build c nn in
     let st = ref (Model.fresh_scratch c) in
-    let tbl = table b n in
+    let tbl = if big then None else table b n in
     let out = ref [] in
-    let add v = out := v :: !out in
+    let add0 v = out := v :: !out in
+    let add v = match v with Diff _ when big -> () | _ -> add0 v in
+    if big then bump "big_circuits_laws_only";
     let z l = Conv.zlist_of_ints l in
     (* cached core *)
     (match impl b "core" with
